@@ -814,6 +814,29 @@ namespace
                       ++stats.queries; ++stats.checks; ++stats.by_check[mask == 0 ? "subset-background" : "subset-tag"];
                       if (got != want)
                         mism(mask == 0 ? "subset-background" : "subset-tag", rowtxt + ": the tag is not that of the last feature that contains the point on its own (containing set " + std::to_string(mask) + ")", -1, got, want);
+                      if (mask == 0)
+                        {
+                          // no feature contains the point: the reply has the documented layout and, apart from the temperature, the
+                          // background's values (compositions 0, grains all zero, velocity zero, tag -1)
+                          ++stats.checks; ++stats.by_check["subset-background"];
+                          size_t o = 0; bool shape = true; size_t where = 0; double wantv = 0.;
+                          for (size_t i = 0; shape && i < props.size(); ++i)
+                            {
+                              const size_t n = props[i][0] == 3 ? 10 * static_cast<size_t>(props[i][2]) : (props[i][0] == 5 ? 3 : 1);
+                              if (o + n > out.size()) { shape = false; where = o; break; }
+                              if (props[i][0] != 1)
+                                for (size_t j = 0; shape && j < n; ++j)
+                                  {
+                                    wantv = props[i][0] == 4 ? -1. : 0.;
+                                    if (out[o + j] != wantv) { shape = false; where = o + j; }
+                                  }
+                              o += n;
+                            }
+                          if (shape && o != out.size()) { shape = false; where = o; }
+                          if (!shape)
+                            mism("subset-background", rowtxt + ": no feature contains the point, but the reply does not have the background's layout and values (length " + std::to_string(out.size()) + ")",
+                                 static_cast<long>(where), where < out.size() ? fmt(out[where]) : "missing", fmt(wantv));
+                        }
                       for (auto &mw : ss["worlds"].GetArray())
                         if (mw[0].GetUint() == mask)
                           {
